@@ -161,6 +161,25 @@ func c11Case(c *ctx, d docSpec, how string) {
 }
 
 func runC11(c *ctx) {
+	// corpus: distinct IDs whose concatenation with the type name coincides
+	// ("xt"+"t" = "x"+"tt"), in both orders
+	{
+		ta := typeSpec{name: "t", fields: []fieldSpec{{name: "a", code: 1}}}
+		tb := typeSpec{name: "tt", fields: []fieldSpec{{name: "a", code: 1}}}
+		sc := schemaSpec{types: []typeSpec{ta, tb}, wrapped: map[string]bool{}}
+		inc := []resSpec{{tn: "t", ops: []setOp{{"id", "xt"}, {"a", "1"}}}, {tn: "tt", ops: []setOp{{"id", "x"}, {"a", "2"}}}}
+		for _, rev := range []bool{false, true} {
+			d := docSpec{sc: sc, dataKind: "resource", urlFrags: []string{"t", "x"},
+				data:   []resSpec{{tn: "t", ops: []setOp{{"id", "1"}, {"a", "0"}}}},
+				fields: map[string][]string{"t": {"a"}, "tt": {"a"}}, relData: map[string][]string{}}
+			if rev {
+				d.included = []resSpec{inc[1], inc[0]}
+			} else {
+				d.included = []resSpec{inc[0], inc[1]}
+			}
+			c11Case(c, d, "corpus key collision")
+		}
+	}
 	n := 200
 	if c.thorough() {
 		n = 5000
